@@ -38,7 +38,7 @@ def make_case(seed, tier):
     r = random.Random(seed)
     k = cohgen.Knobs(classes=r.choice([2, 3, 5]), members=r.choice([4, 6, 9]), ns_depth=r.choice([0, 1, 2]),
                      namespaces=r.choice([1, 2]))
-    g = cohgen.CohGen(seed, k, target='pybind', special_names=0.15, dunders=False)
+    g = cohgen.CohGen(seed, k, target='pybind', special_names=0.15)
     mod = g.module()
     paths = [()]
     for path, it in S.walk_items(mod.items):
